@@ -456,6 +456,56 @@ theorem cache_history_independent (pv : Pure V) (ops : List Op) :
   have := (run_good pv ops {} (good_init pv) []).2
   simpa using this
 
+/-! ### several lattice objects alive at once -/
+
+def accessesOfMany : List (Nat × Op) → List (Nat × Attr)
+  | [] => []
+  | (i, .access a) :: r => (i, a) :: accessesOfMany r
+  | (_, .pickle) :: r => accessesOfMany r
+
+theorem runMany_good (pvs : Nat → Pure V) (ops : List (Nat × Op)) (h : Heap V) (hg : ∀ i, Good (pvs i) (h i))
+    (out : List (Option V)) :
+    (∀ i, Good (pvs i) ((runMany pvs h ops out).1 i)) ∧
+    (runMany pvs h ops out).2 = out.reverse ++ (accessesOfMany ops).map (fun x => some (pureOf (pvs x.1) x.2)) := by
+  induction ops generalizing h out with
+  | nil => simp [runMany, accessesOfMany, hg]
+  | cons op rest ih =>
+    obtain ⟨i, o⟩ := op
+    cases o with
+    | access a =>
+      obtain ⟨hs, hv⟩ := step_good (pvs i) (h i) (hg i) a
+      have hg' : ∀ j, Good (pvs j) (Heap.set h i (step (pvs i) (h i) a).1 j) := by
+        intro j; unfold Heap.set; split
+        · next hj => subst hj; exact hs
+        · exact hg j
+      have := ih _ hg' ((step (pvs i) (h i) a).2 :: out)
+      simp only [runMany, accessesOfMany, List.map_cons]
+      refine ⟨this.1, ?_⟩
+      rw [this.2, hv]; simp
+    | pickle =>
+      have hg' : ∀ j, Good (pvs j) (Heap.set h i (pickleRoundTrip (h i)) j) := by
+        intro j; unfold Heap.set; split
+        · next hj => subst hj; exact good_init (pvs j)
+        · exact hg j
+      have := ih _ hg' out
+      simpa [runMany, accessesOfMany] using this
+
+/-- C02.6b: **several lattices alive at once** — for every interleaving of attribute accesses and pickle round trips on any
+    number of lattice objects, every value observed is the pure function of the lattice it was asked of: what was computed
+    for one lattice is never handed out for another. -/
+theorem interleaving_independent (pvs : Nat → Pure V) (ops : List (Nat × Op)) :
+    (runMany pvs (fun _ => {}) ops []).2 = (accessesOfMany ops).map (fun x => some (pureOf (pvs x.1) x.2)) := by
+  have := (runMany_good pvs ops (fun _ => {}) (fun i => good_init (pvs i)) []).2
+  simpa using this
+
+/-- frame: an operation on lattice `i` leaves the slots of every other lattice as they were -/
+theorem heap_set_frame (h : Heap V) (i j : Nat) (s : State V) (hij : j ≠ i) : Heap.set h i s j = h j := by
+  unfold Heap.set; simp [hij]
+
+example : (runMany (fun i => (⟨10 * i, 10 * i + 1, 10 * i + 2, 10 * i + 3⟩ : Pure Nat)) (fun _ => {})
+    [(1, .access .plaquettes), (2, .access .plaquettes), (1, .access .vertexAdj), (2, .pickle), (2, .access .edgeAdj), (1, .access .edgeAdj)] []).2
+    = [some 10, some 20, some 13, some 22, some 12] := by decide
+
 /-! ### non-vacuity -/
 example : edgePlaq (C01.plaquetteWalks C01.exL) (1, false) = some 0 := by decide +kernel
 example : edgePlaq (C01.plaquetteWalks C01.exL) (1, true) = none := by decide +kernel
